@@ -156,7 +156,7 @@ theorem serF_track_noNull (c : Codecs) : ∀ (n : Nat) (heap : Heap) (decls : De
               · cases h
               · cases h; exact PV.removeNone_noNull _
 
-/-! ## a reference cycle through a resolved annotation exhausts every budget -/
+/-! ## the graphs that used to exhaust every budget (F26, repaired) -/
 
 /-- `class N: name: str; nxt: Optional[N] = None` — the annotation of `nxt` either resolved to the class
     (`resolved = true`) or left as `Optional["N"]`, a forward reference cattrs does not resolve. -/
@@ -171,85 +171,11 @@ def cycle2 : Heap :=
   [(0, .inst "N".toList [("name".toList, .str "a".toList), ("nxt".toList, .ref 1)]),
    (1, .inst "N".toList [("name".toList, .str "b".toList), ("nxt".toList, .ref 0)])]
 
-theorem hUnstr_cycle2 (c : Codecs) (reg : List Str) : ∀ n,
-    hUnstr c n cycle2 reg (nodeDecls true) (some (.dc "N".toList)) (.ref 0) = .error .fuel
-    ∧ hUnstr c n cycle2 reg (nodeDecls true) (some (.dc "N".toList)) (.ref 1) = .error .fuel := by
-  intro n
-  induction n using Nat.strongRecOn with
-  | _ n ih =>
-    match n with
-    | 0 => exact ⟨rfl, rfl⟩
-    | 1 => exact ⟨by simp [hUnstr, nodeDecls, NodeDecl, aget, hUnstrFields, hAttrs, cycle2, Heap.get, Except.map],
-                  by simp [hUnstr, nodeDecls, NodeDecl, aget, hUnstrFields, hAttrs, cycle2, Heap.get, Except.map]⟩
-    | m + 2 =>
-      have h0 := (ih m (by omega)).1
-      have h1 := (ih m (by omega)).2
-      constructor
-      · simp [hUnstr, nodeDecls, NodeDecl, aget, hUnstrFields, hAttrs, cycle2, Heap.get, Except.map, hUnstrLeaf,
-          hIdentity, immediatePV] at h1 ⊢
-        rw [h1]
-      · simp [hUnstr, nodeDecls, NodeDecl, aget, hUnstrFields, hAttrs, cycle2, Heap.get, Except.map, hUnstrLeaf,
-          hIdentity, immediatePV] at h0 ⊢
-        rw [h0]
-
-
-/-- ✗ `serialize` on the 2-cycle through a RESOLVED annotation never returns: every budget is exhausted. -/
-theorem serialize_cycle2_diverges (c : Codecs) (reg : List Str) (fuel : Nat) :
-    serialize c fuel cycle2 (nodeDecls true) reg (.ref 0) = .error .fuel := by
-  cases fuel with
-  | zero => rfl
-  | succ n =>
-    simp only [serialize, serF, List.contains_nil, Bool.false_eq_true, if_false]
-    have hg : Heap.get cycle2 0 = some (.inst "N".toList [("name".toList, .str "a".toList), ("nxt".toList, .ref 1)]) := rfl
-    simp only [hg, (hUnstr_cycle2 c _ n).1]
-
 /-- `d = {}; d["x"] = d` -/
 def dictSelf : Heap := [(0, .dict [("x".toList, .ref 0)])]
-
-theorem hUnstr_dictSelf (c : Codecs) (reg : List Str) (decls : Decls) :
-    ∀ n, hUnstr c n dictSelf reg decls none (.ref 0) = .error .fuel := by
-  intro n
-  induction n with
-  | zero => rfl
-  | succ n ih =>
-    simp [hUnstr, dictSelf, Heap.get, mapValsE, Except.map] at ih ⊢
-    rw [ih]
-
-theorem serialize_dictSelf_diverges (c : Codecs) (reg : List Str) (decls : Decls) (fuel : Nat) :
-    serialize c fuel dictSelf decls reg (.ref 0) = .error .fuel := by
-  cases fuel with
-  | zero => rfl
-  | succ n =>
-    simp only [serialize, serF, List.contains_nil, Bool.false_eq_true, if_false]
-    have hg : Heap.get dictSelf 0 = some (.dict [("x".toList, .ref 0)]) := rfl
-    simp only [hg, hUnstr_dictSelf c reg decls n]
 
 /-- `class A: other: Any = None`, `a.other = a`. -/
 def anyDecls : Decls := [("A".toList, { fields := [⟨"other".toList, .any, .none⟩], loadMap := none, dumpMap := none })]
 def anySelf : Heap := [(0, .inst "A".toList [("other".toList, .ref 0)])]
-
-theorem hUnstr_anySelf (c : Codecs) : ∀ n reg,
-    hUnstr c n anySelf reg anyDecls (some (.dc "A".toList)) (.ref 0) = .error .fuel := by
-  intro n
-  induction n using Nat.strongRecOn with
-  | _ n ih =>
-    intro reg
-    match n with
-    | 0 => rfl
-    | 1 => simp [hUnstr, anyDecls, anySelf, aget, hUnstrFields, hAttrs, Heap.get, Except.map]
-    | 2 => simp [hUnstr, anyDecls, anySelf, aget, hUnstrFields, hAttrs, Heap.get, Except.map]
-    | m + 3 =>
-      have h := ih m (by omega) reg
-      simp [hUnstr, anyDecls, anySelf, aget, hUnstrFields, hAttrs, Heap.get, Except.map] at h ⊢
-      rw [h]
-
-theorem serialize_anySelf_diverges (c : Codecs) (reg : List Str) (fuel : Nat) :
-    serialize c fuel anySelf anyDecls reg (.ref 0) = .error .fuel := by
-  cases fuel with
-  | zero => rfl
-  | succ n =>
-    simp only [serialize, serF, List.contains_nil, Bool.false_eq_true, if_false]
-    have hg : Heap.get anySelf 0 = some (.inst "A".toList [("other".toList, .ref 0)]) := rfl
-    simp only [hg, hUnstr_anySelf c n]
 
 end Pog
